@@ -226,7 +226,9 @@ def run(tier, seed, replay=None):
         nontrivial.add(c.invocation())
     # inherent blocks (part of the documented fragment): accepted and usable
     from . import c17
-    icases, istats, inon, iviol = c17.core(rng, 10 if tier == 'quick' else 150)
+    # the first indices cover every struct shape with a concrete and a generic const argument
+    ni = 16 if tier == 'quick' else 150
+    icases, istats, inon, iviol = c17.core(rng, 0, cases=[c17.gen(rng, idx=i, structs=['w3', 'w2', 'w5', 'w4', 'w8', 'w1', 'w6', 'w7']) for i in range(ni)])
     stats['inherent_mode'] = dict(cases=istats['cases'], programs=istats['programs'])
     stats['programs'] += istats['programs']
     nontrivial |= inon
